@@ -1,8 +1,8 @@
 use std::io::Read;
 use std::collections::{HashSet, VecDeque};
 
-use crate::spec_util::validate_tag_path;
-use crate::tag_iterator_util::EBMLSize::{Known, Unknown};
+use crate::spec_util::{open_path_len, validate_tag_path};
+use crate::tag_iterator_util::EBMLSize::Known;
 use crate::tag_iterator_util::{DEFAULT_BUFFER_LEN, EBMLSize, ProcessingTag, AllowableErrors};
 
 use super::tools;
@@ -442,16 +442,12 @@ impl<R: Read, TSpec> TagIterator<R, TSpec>
 
         if let Some(next_read) = self.read_tag_checked() {
             if let Ok(next_tag) = &next_read {
-                while matches!(self.tag_stack.last(), Some(open_tag) if open_tag.size == Unknown) {
-                    let open_tag = self.tag_stack.last().unwrap();
-                    let previous_tag_ended = open_tag.is_ended_by(next_tag.tag.get_id());
-        
-                    if previous_tag_ended {
-                        let t = self.tag_stack.pop().unwrap();
-                        self.emission_queue.push_back(Ok((t.tag, t.tag_start)));
-                    } else {
-                        break;
-                    }
+                // Unknown sized masters end when a tag that can't be one of their children shows up (this also ends everything nested in them)
+                let doc_path: Vec<(u64, EBMLSize)> = self.tag_stack.iter().map(|p| (p.tag.get_id(), p.size)).collect();
+                let open_len = open_path_len::<TSpec>(next_tag.tag.get_id(), &doc_path);
+                while self.tag_stack.len() > open_len {
+                    let t = self.tag_stack.pop().unwrap();
+                    self.emission_queue.push_back(Ok((t.tag, t.tag_start)));
                 }
 
                 if let Some(Master::Start) = next_tag.tag.as_master() {
